@@ -99,6 +99,56 @@ fn reparse(block: &Block, code: &Option<String>) -> &'static str {
     }
 }
 
+/// Opening parentheses of calls (as darklua's PARSER, which is independent of the generators,
+/// identifies them in the generated text) that are the first token of a line: Lua 5.1 rejects
+/// such a call (manual 2.5.8, "ambiguous syntax") and Luau reports it as ambiguous.
+struct CallParentheses(Vec<usize>);
+
+impl darklua_core::process::NodeProcessor for CallParentheses {
+    fn process_function_call(&mut self, call: &mut FunctionCall) {
+        if let Arguments::Tuple(tuple) = call.get_arguments() {
+            if let Some(tokens) = tuple.get_tokens() {
+                if let Position::LineNumberReference { start, .. } = tokens.opening_parenthese.verif_position() {
+                    self.0.push(*start);
+                }
+            }
+        }
+    }
+}
+
+/// number of call parentheses that start a line; `None` when the text does not parse
+fn call_parentheses_on_new_line(code: &Option<String>) -> Option<usize> {
+    use darklua_core::process::{DefaultVisitor, NodeVisitor};
+    let code = code.as_ref()?;
+    let mut block = catch_unwind(AssertUnwindSafe(|| Parser::default().preserve_tokens().parse(code)))
+        .ok()?
+        .ok()?;
+    let mut collector = CallParentheses(Vec::new());
+    DefaultVisitor::visit_block(&mut block, &mut collector);
+    let bytes = code.as_bytes();
+    let mut count = 0;
+    for start in collector.0 {
+        if bytes.get(start) != Some(&b'(') {
+            continue;
+        }
+        let mut i = start;
+        while i > 0 && (bytes[i - 1] == b' ' || bytes[i - 1] == b'\t' || bytes[i - 1] == b'\r') {
+            i -= 1;
+        }
+        if i > 0 && bytes[i - 1] == b'\n' {
+            count += 1;
+        }
+    }
+    Some(count)
+}
+
+fn newline_flag(code: &Option<String>) -> String {
+    match call_parentheses_on_new_line(code) {
+        Some(n) => n.to_string(),
+        None => "x".to_owned(),
+    }
+}
+
 /// The recorded defect "semicolon:generator-parenthesised-last-operand": the last operand on the
 /// right spine of the statement's final expression is wrapped in parentheses by the generator
 /// (no Parenthese node in the tree).
@@ -170,7 +220,7 @@ fn emit_case(id: &mut usize, block: &Block, spans: &[usize], tag: &str) {
         let d = dense(block, *span);
         let r = readable(block, *span);
         println!(
-            "case {} {} {} {} {} {} {} {}",
+            "case {} {} {} {} {} {} {} {} nl={},{}",
             *id,
             span,
             encoded,
@@ -178,7 +228,9 @@ fn emit_case(id: &mut usize, block: &Block, spans: &[usize], tag: &str) {
             r.as_ref().map(|s| hex_or_dash(s.as_bytes())).unwrap_or_else(|| "PANIC".into()),
             reparse(block, &d),
             reparse(block, &r),
-            tag
+            tag,
+            newline_flag(&d),
+            newline_flag(&r)
         );
         *id += 1;
     }
@@ -660,12 +712,193 @@ fn stmts() {
                     let (dab, rab, block) = gen_one(vec![a.clone(), b.clone()], span);
                     let h = |t: &Option<String>| t.as_ref().map(|s| hex_or_dash(s.as_bytes())).unwrap_or_else(|| "PANIC".into());
                     println!(
-                        "st {} {} {} {} {} {} {} {} {} {}:{}:{}",
+                        "st {} {} {} {} {} {} {} {} {} {}:{}:{} nl={},{}",
                         idn, span, expr_end, h(&da), h(&db), h(&dab), h(&rab),
-                        reparse(&block, &dab), reparse(&block, &rab), ename, fname, sname
+                        reparse(&block, &dab), reparse(&block, &rab), ename, fname, sname,
+                        newline_flag(&dab), newline_flag(&rab)
                     );
                     idn += 1;
                 }
+            }
+        }
+    }
+}
+
+// ---- calls at small column spans ------------------------------------------------------------
+
+/// zero- and one-argument calls (function and method form, chains, parenthesised callee) in
+/// statement and expression position, with callee names of every small length, at every column
+/// span from 0 to the length of the statement + 2: the "(" meets the limit at every offset
+fn calls() {
+    let mut id = 0usize;
+    let names = ["f", "ab", "abc", "chain", "object"];
+    for name in names {
+        for shape in 0..10 {
+            let base = || FunctionCall::from_name(name);
+            let call: FunctionCall = match shape {
+                0 => base(),
+                1 => base().with_method("get"),
+                2 => FunctionCall::from_prefix(FieldExpression::new(Prefix::from_name(name), "b")),
+                3 => FunctionCall::from_prefix(Prefix::Call(Box::new(base()))),
+                4 => FunctionCall::from_prefix(Prefix::Parenthese(Box::new(ParentheseExpression::new(
+                    Expression::identifier(name),
+                )))),
+                5 => base().with_argument(Expression::identifier("x")),
+                6 => FunctionCall::from_prefix(IndexExpression::new(Prefix::from_name(name), gen::number("1"))),
+                7 => FunctionCall::from_prefix(Prefix::Call(Box::new(base().with_method("m")))).with_method("n"),
+                8 => base().with_argument(Expression::from(base())),
+                _ => FunctionCall::from_prefix(FieldExpression::new(Prefix::Call(Box::new(base())), "k")),
+            };
+            let blocks = vec![
+                Block::new(vec![Statement::Call(call.clone())], None),
+                Block::new(
+                    vec![
+                        AssignStatement::from_variable(Variable::new("v"), Expression::from(call.clone())).into(),
+                        Statement::Call(call.clone()),
+                    ],
+                    None,
+                ),
+                Block::new(
+                    vec![VariableAssignment::new(vec!["l".into()], vec![]).into(), Statement::Call(call.clone())],
+                    Some(LastStatement::Return(ReturnStatement::one(Expression::from(call.clone())))),
+                ),
+            ];
+            for block in &blocks {
+                let width = dense(block, 1_000_000_000).map(|t| t.len()).unwrap_or(0);
+                let mut spans: Vec<usize> = (0..=(width + 2).min(40)).collect();
+                spans.push(1_000_000_000);
+                emit_case(&mut id, block, &spans, "calls");
+            }
+        }
+    }
+}
+
+// ---- long bracket strings ------------------------------------------------------------------
+
+/// values the string writer turns (or may turn) into a long bracket literal: >= 60 printable
+/// bytes, or >= 20 bytes with >= 6 new lines; containing the closers of levels 0..k-1 and
+/// ending in "]" "="^j
+fn long_bracket_candidates(seed: u64, random: u64) -> Vec<Vec<u8>> {
+    let mut out: Vec<Vec<u8>> = Vec::new();
+    let closer = |level: usize| -> Vec<u8> {
+        let mut c = vec![b']'];
+        c.extend(std::iter::repeat(b'=').take(level));
+        c.push(b']');
+        c
+    };
+    for multiline in [false, true] {
+        for k in 0..4usize {
+            for ending in 0..6usize {
+                for leading_newline in [false, true] {
+                    let mut v: Vec<u8> = Vec::new();
+                    if leading_newline {
+                        v.push(b'\n');
+                    }
+                    if multiline {
+                        v.extend_from_slice(b"l1\nl2\nl3\nl4\nl5\nl6\nline seven ");
+                    } else {
+                        v.extend(std::iter::repeat(b'q').take(62));
+                    }
+                    for level in 0..k {
+                        v.extend_from_slice(b" mid");
+                        v.extend(closer(level));
+                    }
+                    v.extend_from_slice(b" tail");
+                    match ending {
+                        0 => {}
+                        1 => v.push(b']'),
+                        e => {
+                            v.push(b']');
+                            v.extend(std::iter::repeat(b'=').take(e - 1));
+                        }
+                    }
+                    out.push(v);
+                }
+            }
+        }
+    }
+    let mut rng = Rng::new(seed);
+    for _ in 0..random {
+        let k = rng.below(4);
+        let mut v: Vec<u8> = Vec::new();
+        if rng.chance(1, 4) {
+            v.push(b'\n');
+        }
+        let filler = 60 + rng.below(20);
+        for _ in 0..filler {
+            v.push(if rng.chance(1, 12) { b'\n' } else { b'a' + rng.below(26) as u8 });
+        }
+        for level in 0..k {
+            if rng.chance(5, 6) {
+                let at = rng.below(v.len());
+                let c = closer(level);
+                v.splice(at..at, c);
+            }
+        }
+        if !rng.chance(1, 4) {
+            let j = (k + rng.below(3)).saturating_sub(1);
+            v.push(b']');
+            v.extend(std::iter::repeat(b'=').take(j));
+        }
+        out.push(v);
+    }
+    out
+}
+
+/// each candidate as the only string of a tree, in every position a string can take; line:
+/// `str <id> <span> <value hex> <dense hex> <readable hex> <dense reparse> <readable reparse> <position>`
+fn strings(seed: u64, random: u64) {
+    let mut id = 0usize;
+    for value in long_bracket_candidates(seed, random) {
+        let string = || StringExpression::from_value(value.clone());
+        let positions: Vec<(&str, Block)> = vec![
+            ("return", Block::default().with_last_statement(ReturnStatement::one(string()))),
+            (
+                "index_key",
+                Block::new(vec![assign(IndexExpression::new(Prefix::from_name("t"), string()))], None),
+            ),
+            (
+                "call_argument",
+                Block::new(vec![Statement::Call(FunctionCall::from_name("f").with_argument(string()))], None),
+            ),
+            (
+                "string_call",
+                Block::new(vec![Statement::Call(FunctionCall::from_name("f").with_arguments(string()))], None),
+            ),
+            (
+                "table_key",
+                Block::new(
+                    vec![assign(TableExpression::new(vec![TableEntry::Index(Box::new(TableIndexEntry::new(
+                        string(),
+                        gen::number("1"),
+                    )))]))],
+                    None,
+                ),
+            ),
+            (
+                "concat",
+                Block::new(
+                    vec![assign(BinaryExpression::new(BinaryOperator::Concat, Expression::identifier("a"), string()))],
+                    None,
+                ),
+            ),
+        ];
+        for (position, block) in &positions {
+            for span in [0usize, 80, 1_000_000_000] {
+                let d = dense(block, span);
+                let r = readable(block, span);
+                println!(
+                    "str {} {} {} {} {} {} {} {}",
+                    id,
+                    span,
+                    hex_or_dash(&value),
+                    d.as_ref().map(|s| hex_or_dash(s.as_bytes())).unwrap_or_else(|| "PANIC".into()),
+                    r.as_ref().map(|s| hex_or_dash(s.as_bytes())).unwrap_or_else(|| "PANIC".into()),
+                    reparse(block, &d),
+                    reparse(block, &r),
+                    position
+                );
+                id += 1;
             }
         }
     }
@@ -680,6 +913,8 @@ fn main() {
         "tables" => tables(arg_u64(args, "--seed", 1)),
         "stream" => stream(arg_u64(args, "--seed", 1), arg_u64(args, "--n", 100)),
         "prec" => prec(),
+        "calls" => calls(),
+        "strings" => strings(arg_u64(args, "--seed", 1), arg_u64(args, "--random", 40)),
         "stmts" => stmts(),
         "ops" => ops(
             arg_u64(args, "--seed", 1),
